@@ -90,10 +90,17 @@ class Monitor:
         for n, bid in enumerate(order):
             rb = chain.blocks[bid]
             prev_head = cs.current_chain_hash
-            if validate:
-                cs = cs.add_block(world.real[bid], rb.ts)
-            else:
-                cs = cs.add_block_no_validation(world.real[bid])
+            try:
+                if validate:
+                    cs = cs.add_block(world.real[bid], rb.ts)
+                else:
+                    cs = cs.add_block_no_validation(world.real[bid])
+            except Exception as e:
+                # the block is valid on its own chain (reference) and was accepted in generation order: failing to add it
+                # here means its ledger state depends on something other than its ancestors (arrival order, other forks)
+                self.v("valid-block-cannot-be-added-in-this-arrival-order", "block h=%d (%s order, arrival %d): %s: %s" % (
+                    rb.height, order_name, n, type(e).__name__, str(e)[:80]), w)
+                break
             self.c["adds"] += 1
             if cs.current_chain_hash != prev_head and rb.prev != prev_head:
                 self.c["reorganisations"] += 1
